@@ -39,10 +39,11 @@ type Case struct {
 	Storm     bool   `json:"connect_storm"`
 	RaceWrite bool   `json:"race_writes_and_closes"`
 	StopUs    int    `json:"stop_after_start_us"` // -1: after the history
+	RefuseNth int    `json:"close_every_nth_conn_inside_onopen,omitempty"`
 	Shutdown  bool   `json:"shutdown_ctx"`
 }
 
-var frameRE = regexp.MustCompile(`lesismal/nbio[^\s(]*`)
+var frameRE = regexp.MustCompile(`lesismal/nbio[^\s]*`)
 
 func nbioGoroutines() map[string]int {
 	buf := make([]byte, 1<<20)
@@ -132,7 +133,12 @@ func runCase(c Case) vlib.Result {
 		conf := nbio.Config{Network: "tcp", Addrs: addrList, NPoller: c.NPoller, AsyncReadInPoller: c.Async}
 		vlib.ApplyMode(&conf, c.Mode)
 		g := nbio.NewEngine(conf)
-		g.OnOpen(func(*nbio.Conn) { atomic.AddInt64(&opens, 1) })
+		g.OnOpen(func(conn *nbio.Conn) {
+			n := atomic.AddInt64(&opens, 1)
+			if c.RefuseNth > 0 && n%int64(c.RefuseNth) == 0 {
+				_ = conn.Close() // e.g. a connection limit or an address filter refusing the connection
+			}
+		})
 		g.OnClose(func(*nbio.Conn, error) { atomic.AddInt64(&closes, 1) })
 		g.OnData(func(conn *nbio.Conn, data []byte) { _, _ = conn.Write(data) })
 		core = g
@@ -160,6 +166,13 @@ func runCase(c Case) vlib.Result {
 			conf.EPOLLONESHOT = nbio.EPOLLONESHOT
 		}
 		e := nbhttp.NewEngine(conf)
+		var hopens int64
+		e.OnOpen(func(conn net.Conn) {
+			n := atomic.AddInt64(&hopens, 1)
+			if c.RefuseNth > 0 && n%int64(c.RefuseNth) == 0 {
+				_ = conn.Close()
+			}
+		})
 		if err := e.Start(); err != nil {
 			return vlib.Fail("harness: http engine start: %v", err)
 		}
@@ -448,6 +461,9 @@ func gen(t *rapid.T) Case {
 		for i := 0; i < n; i++ {
 			c.Acts = append(c.Acts, Act{K: rapid.SampledFrom([]string{"client", "client-traffic", "client-traffic", "client-close", "addconn", "dial", "dial-refused", "backlog", "fardeadline", "serverclose"}).Draw(t, "act")})
 		}
+	}
+	if rapid.IntRange(0, 3).Draw(t, "refuse") == 0 {
+		c.RefuseNth = rapid.IntRange(1, 3).Draw(t, "refusenth")
 	}
 	c.Storm = rapid.IntRange(0, 2).Draw(t, "storm") == 0
 	c.RaceWrite = rapid.IntRange(0, 2).Draw(t, "racewrite") == 0
